@@ -569,7 +569,47 @@ def r19(ctx):
     ctx.ob('C20.R19', fn, fn.body, bool(z) and not kept, 'buffered length in close()', 'reset on every path: %s' % (bool(z) and not kept))
 
 
+def r22(ctx):
+    ctx.rule('C20.R22', 'no request object is leaked: ProtocolHandler::addRequest refuses a request without taking it exactly '
+             'when the handler is read-only (its only early return; checked here). Every request BusHandler creates with new '
+             'is therefore either deleted in the creating function on the failure of addRequest (a delete of it is reachable '
+             'behind the call) or created only where m_protocol->isReadOnly() was tested false - a scan request created in '
+             'read-only mode is never freed and leaves the scan counter above zero, so that every later scan is refused',
+             minimum=2)
+    fb = ctx.fb
+    ar = fb.fn('ebusd::ProtocolHandler::addRequest')
+    ctx.touch(ar)
+    pushes = [c for c in ar.calls('push') if 'm_nextRequests' in ar.key(ar.nodes[c].get('obj', -1))]
+    early = [r for r in ar.all('ReturnStmt') if pushes and not any(
+        ar.reaches_point(ar.pos(p_)[0], ar.pos(r), set(), start_idx=ar.pos(p_)[1] + 1) for p_ in pushes)]
+    only_ro = bool(pushes) and all(ar.needs_one_of(r, [('this.m_config.readOnly', True), ('this.isReadOnly()', True)]) for r in early)
+    ctx.ob('C20.R22', ar, ar.body, only_ro, 'addRequest refuses only in read-only mode',
+           '%d return(s) in front of the queue push, all under readOnly: %s' % (len(early), only_ro), nontrivial=False)
+    n = 0
+    seen = set()
+    for fn in fb.functions:
+        if fn.relfile != 'src/ebusd/bushandler.cpp' or not fn.blocks or (fn.name, fn.sig) in seen:
+            continue
+        seen.add((fn.name, fn.sig))
+        for x, v in sorted(fn.nodes.items()):
+            if v['k'] != 'CXXNewExpr' or not (v.get('newt') or '').endswith('Request') or fn.block_of(x) is None:
+                continue
+            n += 1
+            ctx.touch(fn)
+            guarded = fn.needs_one_of(x, [('this.m_protocol.isReadOnly()', False)])
+            adds = [c for c in fn.calls('addRequest') if fn.block_of(c) is not None and
+                    fn.reaches_point(fn.pos(x)[0], fn.pos(c), set(), start_idx=fn.pos(x)[1] + 1)]
+            dels = [d for d in fn.all('CXXDeleteExpr') if fn.nodes[d].get('delt') == v.get('newt') and fn.block_of(d) is not None]
+            freed = bool(adds) and all(any(fn.reaches_point(fn.pos(c)[0], fn.pos(d), set(), start_idx=fn.pos(c)[1] + 1) for d in dels) for c in adds)
+            ok = guarded or freed
+            ctx.ob('C20.R22', fn, x, ok, 'new %s in %s' % (v.get('newt').split('::')[-1], fn.name.split('::', 1)[1]),
+                   'created only when not read-only: %s; deleted behind a refused addRequest in this function: %s' % (guarded, freed))
+    if n < 2:
+        raise AnalysisBroken('C20.R22: only %d request allocations found in bushandler.cpp' % n)
+
+
 def run(ctx):
+    r22(ctx)
     r19(ctx)
     r15(ctx)
     ctx.rule('C20.R16', 'a position searched in a string is used on the same content: no path leads from pos = s.find...() through '
